@@ -4,6 +4,7 @@ CONSTANTS
   Regions = {"type", "vmaj", "vmin", "lenhi", "lenlo", "lenover", "first", "mid", "macstart", "pad", "last"}
   InjKinds = {"garbage", "plainalert", "empty", "ccs", "hsfinished"}
   PadAuth = @PADAUTH@
+  MaxPost = 3
 INIT GInit
 NEXT GNext
 INVARIANTS Emit
